@@ -2,6 +2,7 @@
   C02 — No false positives: absent strings give NORESULT, bad IDs give NULL.
 -/
 import CSD.Lemmas.PFCMeta
+import CSD.Lemmas.HashBuild
 
 namespace CSD.Props.C02
 open CSD CSD.PFC
@@ -42,6 +43,18 @@ theorem pfc_locate_sound (b : Nat) (S : List Str) (hv : validDict S = true)
     obtain ⟨hj, hje, _⟩ := List.idxOf?_eq_some_iff.mp hidx
     subst h'
     simp [List.getElem?_eq_getElem hj, hje]
+
+/-- Hash kinds: a string that is not a member is answered 0 — the probe sequence ends at a free cell
+or exhausts the table without a match; no stored string compares equal. -/
+theorem hash_locate_absent (tsize0 : Nat) (S : List Str) (hnd : S.Nodup) (hcap : S.length ≤ tsize0)
+    (hacc : Hash.accepted (Hash.build tsize0 S).tsize = true) (q : Str) (hq : q ∉ S) :
+    Hash.locate (Hash.build tsize0 S) q = 0 :=
+  Hash.locate_absent (Hash.goodDict_build tsize0 S hnd hcap hacc) q hq
+
+/-- Hash kinds: ID 0 and IDs above `n` extract nothing. -/
+theorem hash_extract_bad_id (tsize0 : Nat) (S : List Str) (i : Nat) (h : i = 0 ∨ i > S.length) :
+    Hash.extract (Hash.build tsize0 S) i = none :=
+  Hash.extract_invalid _ i h
 
 example : validDict [[0x61, 0x62], [0x62]] = true ∧ ([0x61] : Str) ∉ [[0x61, 0x62], [0x62]] := by decide
 
